@@ -32,7 +32,8 @@ def remote_probe(ctx, rep, mine, deployments=DEPLOYMENTS):
         (wd / 'b' / 'h').write_bytes(shared + ctx.rng.randbytes(200))
         encrypted = ctx.rng.random() < 0.6
         if dep.startswith('b2'):
-            svc = fk.FakeB2('bkt', page_size=2, piece=64, max_requests=60000)
+            # pages of ONE name by bucket name (every name is the first of a continuation page), of two by bucket id
+            svc = fk.FakeB2('bkt', page_size=1 if dep == 'b2-by-name' else 2, piece=64, max_requests=60000)
         else:
             svc = fk.FakeS3('bkt', page_size=2, piece=64, max_requests=60000)
         uploads = []
